@@ -425,12 +425,15 @@ namespace details {
 		std::streambuf *setbuf(char *s,std::streamsize size)
 		{
 			if(full_buffering_) {
+				// only remember the size (it is applied when full buffering is switched off);
+				// never shrink the vector below the buffered content
 				buffer_size_ = size;
 				std::streamsize content_size = pptr() - pbase();
-				if(size_t(size) > output_.size())
+				if(size_t(size) > output_.size()) {
 					output_.resize(size);
-				do_setp();
-				pbump(content_size);
+					setp(&output_[0],&output_[0]+output_.size());
+					pbump(content_size);
+				}
 				return this;
 			}
 			return basic_device::setbuf(s,size);
